@@ -714,3 +714,63 @@ Definition holds_history (a o : list N) : bool :=
   let ops := hist_ops (N.to_nat (arg a 6)) (skipn 7 a) in
   negb (existsb (fun x => x =? PANIC) o) &&
   holds_hist_steps (S (length ops)) data (arg a 3) (is_post (okind_of (arg a 4))) ops o [].
+
+(* ---------------- families bao / copy / grow ---------------- *)
+Fixpoint le_bytes (n : nat) (x : N) : bytes :=
+  match n with O => [] | S k => int_of_N (x mod 256) :: le_bytes k (x / 256) end.
+(* args [kind; seed; size; a; b]: bao slice of chunks [a, b) = little-endian size ++ the block-size-0 encoding *)
+Definition run_bao (a : list N) : list N :=
+  let data := blob a in
+  let s := le_bytes 8 (blen B3 data) ++ flat B3 (honest B3 data 0 [arg a 3; arg a 4]) in
+  [blen B3 s; dg s; 1; 1].
+Definition holds_bao (a o : list N) : bool :=
+  match o with [_; _; ok; eq] => (ok =? 1) && (eq =? 1) | _ => false end.
+
+(* args [kind; seed; size; bs; from_kind; to_kind; driver] *)
+Definition run_copy (a : list N) : list N :=
+  let data := blob a in
+  let bs := arg a 3 in
+  let from := intact (okind_of (arg a 4)) data bs in
+  let t := ob_tree from in
+  let k2 := okind_of (arg a 5) in
+  let to0 := mkOb3 k2 (ob_root from) t (match k2 with EmptyOb => [] | _ => zeros B3 (N.to_nat (outboard_size t)) end) in
+  let r := if arg a 6 =? 0 then copy B3 from to0 else copy_fsm B3 from to0 in
+  match r with
+  | Ok to => [0; dg (ob_data to); loads_digest to; loads_digest from; 1]
+  | Err k => [1 + kcode k; dg (ob_data to0); loads_digest to0; loads_digest from; 1]
+  | Panic => [PANIC]
+  end.
+(* C12: converting / copying loses and invents nothing *)
+Definition holds_copy (a o : list N) : bool :=
+  let data := blob a in
+  let bs := arg a 3 in
+  let k2 := okind_of (arg a 5) in
+  match o with
+  | [rc; tod; tol; froml; ff] =>
+      (rc =? 0) && (ff =? 1) &&
+      (match k2 with EmptyOb => true | _ => (tol =? froml) && (tod =? dg (spec_outboard B3 (is_post k2) data bs)) end)
+  | _ => false
+  end.
+
+Fixpoint common_prefix_n (x y : bytes) (n : N) : N :=
+  match x, y with
+  | a :: x', b :: y' => if Uint63.eqb a b then common_prefix_n x' y' (n + 1) else n
+  | _, _ => n
+  end.
+(* args [kind; seed; size1; size2; bs] *)
+Definition run_grow (a : list N) : list N :=
+  let d2 := gen_data (arg a 0) (arg a 1) (arg a 3) in
+  let d1 := firstn (N.to_nat (arg a 2)) d2 in
+  let bs := arg a 4 in
+  let o1 := spec_outboard B3 true d1 bs in
+  let o2 := spec_outboard B3 true d2 bs in
+  [blen B3 o1; dg o1; blen B3 o2; dg o2; common_prefix_n o1 o2 0].
+(* C13: the post-order outboard cut after its stable pairs is a byte prefix of every extension's *)
+Definition holds_grow (a o : list N) : bool :=
+  let bs := arg a 4 in
+  match o with
+  | [l1; _; l2; _; cp] =>
+      (l1 =? (sp_blocks (arg a 2) bs - 1) * 64) && (l2 =? (sp_blocks (arg a 3) bs - 1) * 64) &&
+      (64 * sp_stable_count (arg a 2) bs <=? cp)
+  | _ => false
+  end.
